@@ -467,6 +467,8 @@ func exploreScenario(c *Ctx, sc scenario, bound int) {
 			problem = "DEADLOCK " + x.deadlock
 		case len(x.races) > 0:
 			problem = "RACE " + x.races[0]
+		case strings.Contains(key, "shared-bytecode-unchanged=false"):
+			problem = "SHARED-BYTECODE a call changed the bytecode of the program shared by the threads"
 		case key != strings.Join(want, " ## "):
 			for i := range obs {
 				if i < len(want) && obs[i] != want[i] {
